@@ -24,6 +24,11 @@ class TrieDict(object):
         self.__root = TrieDictNode()
 
     def __len__(self):
+        # NOTE: the root counter only counts items stored in children, so a
+        # value stored under the empty prefix must be accounted for here
+        if self.__root.value is not NULL:
+            return self.__root.counter + 1
+
         return self.__root.counter
 
     def __setitem__(self, prefix, value):
